@@ -73,6 +73,16 @@ inline void subsets_of_size(const Simplex& s, std::size_t m, std::set<Simplex>& 
 // All simplices of dimension l of the triangulation that contain tau (tau sorted, a simplex).  Naive search: candidate points are the
 // lattice points of the box [max-1, min+1]; supersets are grown by adding candidates in increasing candidate order and
 // re-validated with is_simplex at every step.
+// cur (sorted) is a simplex; is cur + {p} still one?  (p comparable with every vertex, all of them in one unit cube)
+inline bool compatible(const Simplex& cur, const Vertex& p) {
+  for (auto& q : cur) { if (q == p) return false; if (!leq(p, q) && !leq(q, p)) return false; }
+  for (std::size_t i = 0; i < p.size(); ++i) {
+    int lo = std::min(cur.front()[i], p[i]), hi = std::max(cur.back()[i], p[i]);
+    if (hi - lo > 1) return false;
+  }
+  return true;
+}
+
 inline std::vector<Vertex> candidates(const Simplex& tau) {
   const std::size_t d = tau[0].size();
   const Vertex& lo = tau.front();
@@ -103,8 +113,9 @@ inline void cofaces(const Simplex& tau, std::size_t l, std::set<Simplex>& out) {
       if (cur.size() == want) { out.insert(cur); return; }
       for (std::size_t j = from; j < cand.size(); ++j) {
         if (cand.size() - j < want - cur.size()) break;
+        if (!compatible(cur, cand[j])) continue;
         Simplex t = cur; t.insert(std::upper_bound(t.begin(), t.end(), cand[j]), cand[j]);
-        if (is_simplex(t)) go(t, j + 1);
+        go(t, j + 1);
       }
     }
   } rec{cand, l + 1, out};
